@@ -647,20 +647,30 @@ def scenario_unsupported(exe, mode_arg, payload):
 
 # ------------------------------------------------------------------------------------------------ C14: one module per crate + imports
 MF_A = {
-    'alpha/src/lib.rs': '#[typeshare]\npub struct Item { pub id: u32 }\n#[typeshare]\npub enum Color { Red, Green }\n#[typeshare]\npub type ItemList = Vec<Item>;\n',
+    # one distinct type of crate alpha per kind of reference position, so that losing one position loses one import
+    'alpha/src/lib.rs': '#[typeshare]\npub struct Item { pub id: u32 }\n#[typeshare]\npub enum Color { Red, Green }\n#[typeshare]\npub type ItemList = Vec<Item>;\n'
+                        '#[typeshare]\npub struct Shade { pub s: u8 }\n#[typeshare]\npub enum Tone { Low, High }\n#[typeshare]\npub struct Hue { pub h: u8 }\n'
+                        '#[typeshare]\npub struct Tint { pub t: u8 }\n#[typeshare]\npub struct Gloss { pub g: u8 }\n',
     'alpha/src/more.rs': '#[typeshare]\npub struct Extra { pub item: Item, pub color: Color }\n',
     'beta-gamma/src/lib.rs': 'use alpha::Item;\nuse alpha::{Color, Extra as Ex};\nuse delta::*;\n#[typeshare]\npub struct Holder { pub item: Item, pub colors: Vec<Color>, '
                              'pub d: Option<Deep>, pub own: Own, pub q: alpha::ItemList }\n#[typeshare]\npub struct Own { pub a: u32 }\n',
-    'deep/nested/delta/src/sub/mod.rs': 'use beta_gamma::Holder;\nuse std::collections::HashMap;\nuse other_crate::NotShared;\n#[typeshare]\npub struct Deep { pub h: HashMap<String, Holder>, pub n: NotShared }\n'
+    'deep/nested/delta/src/sub/mod.rs': 'use beta_gamma::Holder;\nuse std::collections::HashMap;\nuse other_crate::NotShared;\npub mod inner;\n'
+                                        '#[typeshare]\npub struct Deep { pub h: HashMap<String, Holder>, pub n: NotShared, pub i: inner::Inner }\n'
                                         '#[typeshare]\npub struct Own2 { pub z: bool }\n'
-                                        '#[typeshare]\n#[serde(tag = "t", content = "c")]\npub enum Choice { B { c: alpha::Color }, C(Own2), D(alpha::Color) }\n',
+                                        '#[typeshare]\n#[serde(tag = "t", content = "c")]\npub enum Choice { B { c: alpha::Shade }, C(Own2), D(alpha::Tone) }\n'
+                                        '#[typeshare]\npub type Hues = Vec<alpha::Hue>;\n'
+                                        '#[typeshare]\npub struct Gen<T> { pub t: T, pub x: Option<HashMap<String, alpha::Tint>> }\n'
+                                        '#[typeshare]\npub struct NewT(alpha::Gloss);\n',
+    'deep/nested/delta/src/sub/inner.rs': '#[typeshare]\npub struct Inner { pub v: u32 }\n',
     'solo_crate/src/lib.rs': '#[typeshare]\npub struct Lonely { pub a: u32 }\n',
     'no-types/src/lib.rs': 'pub struct NotAnnotated { pub a: u32 }\n',
 }
-MF_A_TYPES = {'alpha': ['Item', 'Color', 'ItemList', 'Extra'], 'beta_gamma': ['Holder', 'Own'], 'delta': ['Deep', 'Own2', 'Choice'], 'solo_crate': ['Lonely']}
+MF_A_TYPES = {'alpha': ['Item', 'Color', 'ItemList', 'Extra', 'Shade', 'Tone', 'Hue', 'Tint', 'Gloss'], 'beta_gamma': ['Holder', 'Own'],
+              'delta': ['Deep', 'Own2', 'Choice', 'Hues', 'Gen', 'NewT', 'Inner'], 'solo_crate': ['Lonely']}
 # (module, type) -> module it must be imported from (the crate the `use` / path names)
 MF_A_USES = {('beta_gamma', 'Item'): 'alpha', ('beta_gamma', 'Color'): 'alpha', ('beta_gamma', 'ItemList'): 'alpha', ('beta_gamma', 'Deep'): 'delta',
-             ('delta', 'Holder'): 'beta_gamma', ('delta', 'Color'): 'alpha'}
+             ('delta', 'Holder'): 'beta_gamma', ('delta', 'Shade'): 'alpha', ('delta', 'Tone'): 'alpha', ('delta', 'Hue'): 'alpha', ('delta', 'Tint'): 'alpha',
+             ('delta', 'Gloss'): 'alpha'}
 MF_B = {
     'alpha/src/lib.rs': '#[typeshare]\npub struct Shared { pub a: u32 }\n#[typeshare]\npub struct OnlyAlpha { pub a: u32 }\n',
     'epsilon/src/lib.rs': '#[typeshare]\npub struct Shared { pub e: String }\n',
@@ -696,6 +706,8 @@ def mf_lines(lang, text):
             continue
         if lang == 'scala' and (re.match(r'type U(Byte|Short|Int|Long) = ', t) or t in ('{', '}')):
             continue      # the package object with the unsigned aliases is written per module (helpers: C12), not a definition
+        if lang == 'python' and re.match(r'\w+ = TypeVar\(', t):
+            continue      # helper declarations, not definitions (Python keeps its helper state across the modules of one run: a later module repeats them)
         out.append(t)
     return collections.Counter(out)
 
@@ -768,8 +780,9 @@ def multifile_case(exe, corpus, lang, ext, largs):
 
 def scenario_multifile(exe, mode_arg, payload):
     """C14 bound: two source trees (A: 6 crates - a crate name with a dash, a crate whose sources lie in sub-directories three levels below the
-    root, a crate without typeshared types, 11 types, references through `use a::X`, `use a::{X, Y as Z}`, `use d::*`, qualified paths `a::X` in
-    fields / variant payloads / struct variants, a reference to a type that is not typeshared; B: the same type name defined by two crates and
+    root with a nested module file, a crate without typeshared types, 19 types, references through `use a::X`, `use a::{X, Y as Z}`, `use d::*`,
+    qualified paths `a::X` - a different type of crate a in each position: struct field, struct-variant field, tuple-variant payload, alias
+    target, nested generic argument, newtype - a path into a module of the own crate, a reference to a type that is not typeshared; B: the same type name defined by two crates and
     used from a third through `use`; plus the source tree of the recorded Go finding for the five other languages) x 6 languages with --output-folder: exactly one module per crate with typeshared types, named after the
     directory above `src` (dashes as underscores, Swift in PascalCase); every type defined in its crate's module and in no other; (A) the
     non-import lines of all modules together equal those of single-file output for the same sources; TypeScript / Kotlin: every import names
